@@ -384,10 +384,15 @@ def check_c13(tier, seed):
     # (a) isolation: run(A), run(B), run(A+B), run(B+A)
     for i in range(n_iso):
         g = Gen(seed * 104729 + i, {"n_strategies": (2, 2), "p_trade": 0.9, "p_action": 0.7, "p_iso_off": 0.0, "n_runners": (2, 2), "center": (96, 104), "p_cancel": 0.2,
-                                    "n_markets": (1, 2), "p_limits": 0.2, "p_removal": 0.05, "p_close": 0.8})
+                                    "n_markets": (1, 2), "p_limits": 0.2, "p_removal": 0.05, "p_close": 0.8, "p_inplay": 0.5 if i % 4 == 0 else 0.1})
         scn = g.scenario("iso%d" % i)
         scn["cfg"]["isolation"] = True
         A, B = scn["strategies"][0], scn["strategies"][1]
+        if i % 4 == 0:
+            # the two strategies read the same files through differently filtered streams (a falsy but meaningful filter
+            # value on one side): what each receives must not depend on the other being registered, nor on the order
+            A["listener_kwargs"] = [{"inplay": False}, {"max_inplay_seconds": 0}, {"inplay": False}][(i // 4) % 3]
+            B["listener_kwargs"] = {}
 
         def variant(strats, vid):
             s = copy.deepcopy(scn)
@@ -398,7 +403,15 @@ def check_c13(tier, seed):
         r_b = run_scenario(variant([B], "b"), snapshots=False)
         r_ab = run_scenario(variant([A, B], "ab"), snapshots=False)
         r_ba = run_scenario(variant([B, A], "ba"), snapshots=False)
-        case = {"kind": "iso", "id": scn["id"], "solo": ledger_of(r_a, "A"), "ab": ledger_of(r_ab, "A"), "ba": ledger_of(r_ba, "A"),
+        def filters_of(run):     # what each strategy asked for and what the stream it was attached to applies
+            out_ = []
+            for st_ in run["rec"].flumine.strategies:
+                want = json.dumps(dict(st_.market_filter.get("listener_kwargs", {})), sort_keys=True)
+                for sm in st_.streams:
+                    out_.append([st_.name, want, json.dumps(dict(sm.listener_kwargs or {}), sort_keys=True)])
+            return out_
+        case = {"kind": "iso", "id": scn["id"], "filters_differ": A.get("listener_kwargs", {}) != B.get("listener_kwargs", {}),
+                "filters": filters_of(r_ab) + filters_of(r_ba), "solo": ledger_of(r_a, "A"), "ab": ledger_of(r_ab, "A"), "ba": ledger_of(r_ba, "A"),
                 "solo_b": ledger_of(r_b, "B"), "ab_b": ledger_of(r_ab, "B"), "ba_b": ledger_of(r_ba, "B")}
         cases.append(case)
         scn_by_id[scn["id"]] = scn
@@ -479,6 +492,20 @@ def finish(prop, tier, seed, design, cases, res, samples, t0, rule, assumptions,
         print("MACHINERY-ERROR property=%s case validation incomplete: %s" % (prop, json.dumps(res["errors"])[:3000]))
         return 2
     viol = [v for v in res["viol"] if v["prop"] == prop]
+    # known findings that concern whole-run cases (structural matchers in harness/findings.py)
+    cases_by_id = {c["id"]: c for c in cases}
+    explained = {}
+    rest = []
+    for v in viol:
+        fid = findings.classify_case(v, cases_by_id.get(v["trace"]))
+        if fid:
+            explained.setdefault(fid, []).append(v)
+        else:
+            rest.append(v)
+    viol = rest
+    for fid, vs in sorted(explained.items()):
+        f = [x for x in findings.load() if x["id"] == fid][0]
+        print("KNOWN-FINDING: property=%s %s [%s] (%d occurrences in %d cases)" % (prop, f["what"][:220], fid, len(vs), len(set(v["trace"] for v in vs))))
     rc = 0
     if viol:
         os.makedirs(os.path.join(ROOT, "replays"), exist_ok=True)
@@ -508,6 +535,7 @@ def finish(prop, tier, seed, design, cases, res, samples, t0, rule, assumptions,
         "distinct_nontrivial": len(set(json.dumps(c, sort_keys=True) for c in cases if (c.get("delivered") or c.get("solo") or c.get("runs")))),
         "drift": len(res.get("drift", [])),
         "violations_unexplained": len(viol),
+        "known_findings_hit": {k: len(v) for k, v in explained.items()},
     }
     evidence.write(prop, tier, seed, cov, assumptions, time.time() - t0, len(viol))
     print("%s %s: design %d states, %d cases %s validated, %d violations, %.1fs" % (prop, tier, design["states"], len(cases), dict(kinds), len(viol), time.time() - t0))
